@@ -58,6 +58,47 @@ def tr_atom_expr(e, env):
     raise Untranslatable(ast.dump(e))
 
 
+def tr_z(e, env):
+    """Integer expression (Python ints: floor division and modulus as Coq's Z.div / Z.modulo) -> Gallina over Z."""
+    if isinstance(e, ast.Constant) and isinstance(e.value, int) and not isinstance(e.value, bool):
+        return '(%d)' % e.value
+    if isinstance(e, (ast.Name, ast.Attribute)) and ast.unparse(e) in env:
+        return env[ast.unparse(e)]
+    if isinstance(e, ast.UnaryOp) and isinstance(e.op, ast.USub):
+        return '(- %s)' % tr_z(e.operand, env)
+    if isinstance(e, ast.BinOp):
+        ops = {ast.Add: '+', ast.Sub: '-', ast.Mult: '*', ast.Mod: 'mod', ast.FloorDiv: '/'}
+        for k, v in ops.items():
+            if isinstance(e.op, k):
+                return '(%s %s %s)' % (tr_z(e.left, env), v, tr_z(e.right, env))
+    raise Untranslatable('integer expression outside the grammar: ' + ast.unparse(e))
+
+
+def tr_b(e, env):
+    """Boolean expression over integer comparisons -> Gallina bool."""
+    if isinstance(e, ast.BoolOp):
+        op = ' && ' if isinstance(e.op, ast.And) else ' || '
+        return '(' + op.join(tr_b(v, env) for v in e.values) + ')'
+    if isinstance(e, ast.UnaryOp) and isinstance(e.op, ast.Not):
+        return '(negb %s)' % tr_b(e.operand, env)
+    if isinstance(e, ast.Compare) and len(e.ops) == 1:
+        l, r = tr_z(e.left, env), tr_z(e.comparators[0], env)
+        o = e.ops[0]
+        if isinstance(o, ast.GtE):
+            return '(%s <=? %s)' % (r, l)
+        if isinstance(o, ast.Gt):
+            return '(%s <? %s)' % (r, l)
+        if isinstance(o, ast.LtE):
+            return '(%s <=? %s)' % (l, r)
+        if isinstance(o, ast.Lt):
+            return '(%s <? %s)' % (l, r)
+        if isinstance(o, ast.Eq):
+            return '(%s =? %s)' % (l, r)
+        if isinstance(o, ast.NotEq):
+            return '(negb (%s =? %s))' % (l, r)
+    raise Untranslatable('boolean expression outside the grammar: ' + ast.unparse(e))
+
+
 def invariants(fn):
     """(env of local assignments, list of element expressions of the returned np.array([...]))."""
     env = {}
@@ -94,8 +135,10 @@ def generate():
     # signed_to_unsigned_int: return (a + bits) % bits
     f = _func(fprinter, 'signed_to_unsigned_int')
     ret = [s for s in f.body if isinstance(s, ast.Return)][0].value
-    if ast.unparse(ret).replace(' ', '') != '(a+bits)%bits':
-        raise Untranslatable('signed_to_unsigned_int returns ' + ast.unparse(ret))
+    argnames = [x.arg for x in f.args.args]
+    if argnames != ['a', 'bits']:
+        raise Untranslatable('signed_to_unsigned_int arguments: %r' % argnames)
+    unsigned_src = tr_z(ret, {'a': 'a', 'bits': 'bits'})           # whatever integer formula the source returns
     dflt = ast.unparse(f.args.defaults[0]) if f.args.defaults else None
     if dflt != 'BITS':
         raise Untranslatable('signed_to_unsigned_int default bits: %r' % dflt)
@@ -124,9 +167,14 @@ def generate():
     if elt != '(connectivity[shell.center_atom,x.center_atom],x.identifier,x)':
         raise Untranslatable('atom tuple = ' + elt)
     # level cap test in __next__
-    src = inspect.getsource(fprinter.Fingerprinter.__next__).replace(' ', '').replace('\n', '')
-    if 'ifself.current_level>=self.levelandself.level!=-1:' not in src:
-        raise Untranslatable('level-cap test not found in Fingerprinter.__next__')
+    import textwrap
+    nxt = ast.parse(textwrap.dedent(inspect.getsource(fprinter.Fingerprinter.__next__))).body[0]
+    attrs = lambda t: set(ast.unparse(n) for n in ast.walk(t) if isinstance(n, ast.Attribute))
+    caps = [st for st in ast.walk(nxt) if isinstance(st, ast.If) and {'self.current_level', 'self.level'} <= attrs(st.test)
+            and any(isinstance(x, ast.Raise) for x in st.body)]
+    if len(caps) != 1:
+        raise Untranslatable('level-cap test (an `if` on self.current_level and self.level that raises StopIteration) not found in Fingerprinter.__next__')
+    level_cap_src = tr_b(caps[0].test, {'self.current_level': 'current', 'self.level': 'level'})
     # radius of a level
     src = inspect.getsource(fprinter.ShellsGenerator.__next__).replace(' ', '')
     if 'rad=self.level*self.radius_multiplier' not in src:
@@ -138,14 +186,12 @@ def generate():
              '(* translated from the source text of invariants_from_atom / rdkit_invariants_from_atom *)',
              'Definition daylight_inv_src (D : ringdict) (a : atom D) : list Z := [%s].' % '; '.join(day),
              'Definition rdkit_inv_src (D : ringdict) (a : atom D) : list Z := [%s].' % '; '.join(rdk),
-             '(* signed_to_unsigned_int: return (a + bits) % bits, default bits = BITS *)',
-             'Definition signed_to_unsigned_src (a bits : Z) : Z := (a + bits) mod bits.',
-             '(* identifier_from_shell: np.array([level, previous identifier] + flat tuples) *)',
-             'Definition hash_input_src (level prev : Z) (flat : list Z) : list Z := [level; prev] ++ flat.',
-             '(* _first_two(xs) = (xs[0], xs[1]) on tuples (bond code, identifier, ...); _shell_to_tuple = (identifier, centre) *)',
-             'Definition first_two_src (t : Z * Z * Z) : Z * Z := let \'(c, i, _) := t in (c, i).',
-             'Definition shell_key_src (ident centre : Z) : Z * Z := (ident, centre).',
-             '(* stop test of __next__: current_level >= level and level != -1 *)',
-             'Definition level_cap_reached_src (current level : Z) : bool := (level <=? current) && negb (level =? -1).',
+             '(* signed_to_unsigned_int: the returned integer expression, translated (default bits = BITS) *)',
+             'Definition signed_to_unsigned_src (a bits : Z) : Z := %s.' % unsigned_src,
+             '(* GUARDS (string comparisons in the translator, no definition emitted): hash input = [level, previous identifier] + flat tuples;',
+             '   sort keys _first_two = (xs[0], xs[1]) and _shell_to_tuple = (identifier, centre); atom tuple layout; rad = level * multiplier;',
+             '   distance <= rad.  If one of these texts changes the translator raises and this whole file is absent (obligations not attempted). *)',
+             '(* stop test of __next__ (the `if` that raises StopIteration on the level cap), translated *)',
+             'Definition level_cap_reached_src (current level : Z) : bool := %s.' % level_cap_src,
              '']
     return {'M1Source.v': '\n'.join(lines)}
